@@ -437,6 +437,59 @@ func runRandom(c *mon.Case, protein bool) {
 	}
 }
 
+// runInputs: the two input sequences are bit-identical after the call, whatever the algorithm (plain
+// Smith-Waterman or the variant anchored at the start of the first sequence, which works on reversed copies)
+// and whether the alignment succeeds or fails midway (a residue without matrix entry, a nucleotide against a
+// protein sequence).
+func runInputs(c *mon.Case) {
+	r := c.R
+	var a, b string
+	kind := r.Intn(5)
+	switch kind {
+	case 0:
+		a, b = r.Str(r.Range(1, 40), ntLetters), r.Str(r.Range(1, 40), ntLetters)
+	case 1:
+		a, b = r.Str(r.Range(1, 30), aaLetters)+"L", r.Str(r.Range(1, 30), aaLetters)
+	case 2: // '*' passes alphabet detection but has no entry in the nucleotide matrix
+		a, b = r.Str(r.Range(1, 20), ntLetters)+"*"+r.Str(r.Intn(5), ntLetters), r.Str(r.Range(1, 20), ntLetters)
+	case 3: // nucleotide only against protein only
+		a, b = r.Str(r.Range(2, 20), "ACGU")+"U", r.Str(r.Range(2, 20), "EFILPQ")
+	default: // unknown symbols
+		a, b = r.Str(r.Range(1, 20), ntLetters)+r.PickStr([]string{"?", "!", "1", "J"}), r.Str(r.Range(1, 20), ntLetters)
+	}
+	if r.Bool() {
+		a, b = b, a
+	}
+	algo := align.ALIGN_ALGO_SW
+	if r.Bool() {
+		algo = align.ALIGN_ALGO_ATG
+	}
+	setScore := r.Chance(0.3)
+	c.Input(map[string]interface{}{"s1": a, "s2": b, "anchored_algorithm": algo == align.ALIGN_ALGO_ATG, "set_score": setScore})
+	q1 := align.NewSequence("seq1", []uint8(a), "c1")
+	q2 := align.NewSequence("seq2", []uint8(b), "c2")
+	pw := align.NewPwAligner(q1, q2, algo)
+	if setScore {
+		pw.SetScore(2, -1)
+	}
+	pw.SetGapOpenScore(-3)
+	pw.SetGapExtendScore(-0.5)
+	_, err := pw.Alignment()
+	if q1.Sequence() != a || q2.Sequence() != b || q1.Name() != "seq1" || q2.Name() != "seq2" || q1.Comment() != "c1" || q2.Comment() != "c2" {
+		c.Failf("input-modified", "s1=%q s2=%q anchored=%v err=%v: the inputs are now %q and %q", a, b, algo == align.ALIGN_ALGO_ATG, err, q1.Sequence(), q2.Sequence())
+		return
+	}
+	if err != nil {
+		c.Count("inputs:alignment-failed")
+	} else {
+		c.Count("inputs:alignment-succeeded")
+	}
+	if algo == align.ALIGN_ALGO_ATG {
+		c.Count("inputs:anchored")
+	}
+	c.NonTrivial(a, b, fmt.Sprint(algo, setScore))
+}
+
 // tables compares the substitution tables the binary was built with against the published ones.
 func runTables(c *mon.Case) {
 	protein := c.Idx == 1
@@ -516,7 +569,7 @@ func runWitness(c *mon.Case) {
 }
 
 func main() {
-	mon.SetNote("rule", "case = (s1, s2, scoring scheme) through align.NewPwAligner(ALIGN_ALGO_SW)+Set*+Alignment(), one aligner object per call. `exhaustive`: every ordered pair of strings over {A,C,G} of length 1..4 (120 x 120) under 10 schemes (7 match/mismatch schemes with affine or linear gaps incl. open > -match, 3 DNAfull schemes), each pair also solved by brute-force enumeration of all local alignments; `random-nt` / `random-aa`: random, related (substitutions + indels + flanks), substring-at-an-end, single-residue and single-long-gap pairs up to 60 residues (250 in thorough) over ACGT / IUPAC+U / two letters / 20 amino acids / + B Z X *, both cases with the matrices, random dyadic schemes (match/mismatch or DNAfull / BLOSUM62, open <= extend < 0). Oracles per pair: rows of equal length, no all-gap column, ungapped rows == the substrings delimited by the reported starts/ends, counts recomputed from the columns and adding up to Length, Alignment() object == Seq1Ali/Seq2Ali, inputs unchanged, and when the Gotoh optimum is > 0: MaxScore == score of the returned rows (own scorer) == optimum. Non-trivial = optimum > 0 and (the alignment contains a gap or starts in the first row/column of the DP matrix); distinct = (s1, s2, scheme).")
+	mon.SetNote("rule", "case = (s1, s2, scoring scheme) through align.NewPwAligner(ALIGN_ALGO_SW)+Set*+Alignment(), one aligner object per call. `exhaustive`: every ordered pair of strings over {A,C,G} of length 1..4 (120 x 120) under 10 schemes (7 match/mismatch schemes with affine or linear gaps incl. open > -match, 3 DNAfull schemes), each pair also solved by brute-force enumeration of all local alignments; `random-nt` / `random-aa`: random, related (substitutions + indels + flanks), substring-at-an-end, single-residue and single-long-gap pairs up to 60 residues (250 in thorough) over ACGT / IUPAC+U / two letters / 20 amino acids / + B Z X *, both cases with the matrices, random dyadic schemes (match/mismatch or DNAfull / BLOSUM62, open <= extend < 0). Oracles per pair: rows of equal length, no all-gap column, ungapped rows == the substrings delimited by the reported starts/ends, counts recomputed from the columns and adding up to Length, Alignment() object == Seq1Ali/Seq2Ali, inputs unchanged, and when the Gotoh optimum is > 0: MaxScore == score of the returned rows (own scorer) == optimum. `inputs`: both algorithms of the aligner (plain and anchored at the start of the first sequence), succeeding and failing calls (a residue without matrix entry, nucleotide against protein): the two input sequences are bit-identical afterwards. Non-trivial = optimum > 0 and (the alignment contains a gap or starts in the first row/column of the DP matrix); distinct = (s1, s2, scheme).")
 	mon.SetNote("assumptions", "scores are dyadic rationals so float equality is exact;; gap run of g columns costs open + (g-1)*extend, a gap in the other row starts a new run;; with SetScore two residues match iff their bytes are equal, with a matrix letters are case-folded (as the aligner documents);; NbMatches may count a letter facing its other-case form as a match or as a mismatch (statement silent), gap columns are counted exactly;; the score of a residue pair under a built-in matrix is read from the table the binary was built with (verif hook VerifSubstMatrix), and that table is compared entry by entry with the published EDNAFULL / BLOSUM62 typed in mon/c09/ref.go (goalign's additions: U scores like T, X like N in DNAfull);; Gotoh DP and brute force are the trusted oracles (they must agree with each other on every tiny pair, otherwise the harness panics);; empty sequences and nucleotide-vs-protein pairs are outside the quantifier")
 	mon.SetNote("exhaustive_subspaces", "all 14400 ordered pairs of strings over {A,C,G} with lengths 1..4 x 10 scoring schemes (both tiers), and all ordered pairs over {A,W,T} (DNAfull, 4 gap schemes), {E,Z,P} (BLOSUM62, 4) and {E,Q,L,F} (BLOSUM62, 2 schemes, 340 x 340 pairs) with lengths 1..4, each checked against Gotoh and brute force; all entries of both substitution tables")
 	mon.Floor("exhaustive-pairs", 144000)
@@ -525,6 +578,9 @@ func main() {
 	mon.Floor("alignment-with-gap", 2000)
 	mon.Floor("alignment-starting-in-first-row-or-column", 10000)
 	mon.Floor("scheme:match-mismatch", 1000)
+	mon.Floor("inputs:alignment-failed", 1000)
+	mon.Floor("inputs:alignment-succeeded", 1000)
+	mon.Floor("inputs:anchored", 1000)
 	mon.Floor("scheme:dnafull", 1000)
 	mon.Floor("scheme:blosum62", 1000)
 	mon.Main("C09", []mon.Sub{
@@ -532,6 +588,7 @@ func main() {
 		{Name: "tables", Quick: 2, Thorough: 2, Run: runTables},
 		{Name: "exhaustive", Quick: len(exhSchemes) * len(exhStrings), Thorough: len(exhSchemes) * len(exhStrings), Run: runExhaustive},
 		{Name: "exhaustive-matrix", Quick: nExhMatrixCases(), Thorough: nExhMatrixCases(), Run: runExhaustiveMatrix},
+		{Name: "inputs", Quick: 40000, Thorough: 800000, Run: runInputs},
 		{Name: "random-nt", Quick: 600000, Thorough: 6000000, Run: func(c *mon.Case) { runRandom(c, false) }},
 		{Name: "random-aa", Quick: 300000, Thorough: 3000000, Run: func(c *mon.Case) { runRandom(c, true) }},
 	})
